@@ -462,7 +462,7 @@ class TrimWhitespaces(FullAstVisitor):
             if len(node.args.arguments) == 1 and not node.args.kwargs:
                 arg = node.args.arguments[0]
                 if isinstance(arg, mparser.ArrayNode):
-                    if not any(n.whitespaces and n.whitespaces.value.strip() for n in (arg.lbracket, arg.rbracket, arg)):
+                    if not any(n.whitespaces and n.whitespaces.value.strip() for n in (arg.lbracket, arg.rbracket, arg, *node.args.commas)):
                         # files([...]) -> files(...)
                         node.args = arg.args
 
